@@ -2,7 +2,12 @@
 Error-handling utility code.
 """
 
+from contextvars import ContextVar
 from inspect import getmro
+
+# Set while the failure of an exception extractor is being logged, so that
+# logging it cannot run (possibly equally broken) extractors again.
+_LOGGING_EXTRACTOR_FAILURE = ContextVar("eliot.extractor_failure", default=False)
 
 
 class ErrorExtraction(object):
@@ -37,6 +42,8 @@ class ErrorExtraction(object):
 
         @return: Dictionary with fields to include.
         """
+        if _LOGGING_EXTRACTOR_FAILURE.get():
+            return {}
         for klass in getmro(exception.__class__):
             if klass in self.registry:
                 extractor = self.registry[klass]
@@ -45,7 +52,11 @@ class ErrorExtraction(object):
                 except:
                     from ._traceback import write_traceback
 
-                    write_traceback(logger)
+                    token = _LOGGING_EXTRACTOR_FAILURE.set(True)
+                    try:
+                        write_traceback(logger)
+                    finally:
+                        _LOGGING_EXTRACTOR_FAILURE.reset(token)
                     return {}
         return {}
 
